@@ -91,7 +91,7 @@ var replacements = []struct {
 	v    any
 }{
 	{"null", nil}, {"\"str\"", "str"}, {"\"12\"", "12"}, {"0", json.Number("0")}, {"-1", json.Number("-1")}, {"1.5", json.Number("1.5")},
-	{"1e300", json.Number("1e300")}, {"true", true}, {"[]", []any{}}, {"{}", map[string]any{}}, {"[1]", []any{json.Number("1")}},
+	{"1e300", json.Number("1e300")}, {"0.1234567890123", json.Number("0.1234567890123")}, {"true", true}, {"[]", []any{}}, {"{}", map[string]any{}}, {"[1]", []any{json.Number("1")}},
 }
 
 // extra "change value" alternatives for the crs node: the other CRS encodings of the standard
